@@ -53,6 +53,7 @@ type c02Case struct {
 	Aborts   int
 	PipeSize int
 	Provoke  bool // deterministic provocation of the recorded finding
+	Wide     int  // > 0: every Wide-th line of each file is 40-330 KB long
 }
 
 func c02Line(file, seq int, hit bool, padLen int) string {
@@ -66,10 +67,18 @@ func c02Line(file, seq int, hit bool, padLen int) string {
 
 func c02IsHit(file, seq int) bool { return (seq*7+file)%3 == 0 }
 
-func c02WriteFile(path string, file, lines int) int64 {
+func c02WriteFile(path string, file, lines int) int64 { return c02WriteFileWide(path, file, lines, 0) }
+
+// c02WriteFileWide: with wide > 0 every wide-th line is 40-330 KB long (more
+// than the transport's copy buffer, less than MaxLineLength).
+func c02WriteFileWide(path string, file, lines, wide int) int64 {
 	var b bytes.Buffer
 	for s := 1; s <= lines; s++ {
-		b.WriteString(c02Line(file, s, c02IsHit(file, s), (s*13+file)%90))
+		pad := (s*13 + file) % 90
+		if wide > 0 && s%wide == 1 {
+			pad = 40000 + (s*7919+file*104729)%290000
+		}
+		b.WriteString(c02Line(file, s, c02IsHit(file, s), pad))
 		b.WriteByte('\n')
 	}
 	os.WriteFile(path, b.Bytes(), 0644)
@@ -221,8 +230,17 @@ func c02Gen(rng *rand.Rand, i int, dir string) *c02Case {
 	d := filepath.Join(dir, fmt.Sprintf("c%d", i))
 	os.MkdirAll(d, 0755)
 	total := int64(0)
+	if rng.Intn(6) == 0 {
+		c.Wide = []int{3, 7, 20}[rng.Intn(3)]
+	}
 	for f := 0; f < nFiles; f++ {
 		n := sizes[rng.Intn(len(sizes))]
+		if c.Wide > 0 && n > 201 {
+			n = sizes[rng.Intn(8)]
+		}
+		if c.Wide > 0 && nFiles > 7 && n > 101 {
+			n = sizes[rng.Intn(5)]
+		}
 		if nFiles > 3 && n > 1000 {
 			n = sizes[rng.Intn(8)]
 		}
@@ -230,7 +248,7 @@ func c02Gen(rng *rand.Rand, i int, dir string) *c02Case {
 			n = 1000
 		}
 		p := filepath.Join(d, fmt.Sprintf("f%02d.log", f))
-		total += c02WriteFile(p, f, n)
+		total += c02WriteFileWide(p, f, n, c.Wide)
 		c.Files = append(c.Files, c02File{ID: f, Lines: n, Path: p})
 	}
 	c.Glob = nFiles > 1 && rng.Intn(2) == 0
@@ -274,7 +292,7 @@ func (c *c02Case) shape() string {
 			sz = f.Lines
 		}
 	}
-	return fmt.Sprintf("%s/%s/files%d/glob%v/ssh%v/limit%d/maxlines%s/pipe%d", c.Mode, c.Pace.Kind, len(c.Files), c.Glob, c.SSH, c.Limit, sizeClass(sz), c.PipeSize)
+	return fmt.Sprintf("%s/%s/files%d/glob%v/ssh%v/limit%d/maxlines%s/pipe%d/wide%d", c.Mode, c.Pace.Kind, len(c.Files), c.Glob, c.SSH, c.Limit, sizeClass(sz), c.PipeSize, c.Wide)
 }
 
 type c02Server struct {
